@@ -156,6 +156,9 @@ package execution
 //@   ensures [hit_requires_checks_pass] r == dag.CacheHit && err == nil ==> target.checksOK
 //@   ensures [hit_restores_or_minimal] r == dag.CacheHit && err == nil ==> e.loadOutputsMode == config.LoadOutputsMinimal || target.restored
 //@   ensures [hit_never_executes] r == dag.CacheHit && err == nil ==> target.mainRan == old(target.mainRan)
+// C15: "outputs are present" is claimed for a target only by a restore (the registry's LoadOutputs) or by its execution -
+// a hit that skipped the restore (minimal mode) leaves the flag as it was, whatever the stored result lists
+//@   ensures [unrestored_hit_does_not_claim_outputs_present] r == dag.CacheHit && err == nil && !target.restored ==> target.OutputsLoaded == old(target.OutputsLoaded)
 //@   ensures [minimal_hit_sets_output_hash] r == dag.CacheHit && err == nil && e.loadOutputsMode == config.LoadOutputsMinimal ==> target.OutputHash == lastLoadOutputHash
 //@   ensures [miss_success_executed] r != dag.CacheHit && err == nil ==> (target.Command == "" || (target.mainRan && target.mainOK)) && target.checksOK && target.resultWritten
 //@   ensures [taint_consumed] r != dag.CacheHit && err == nil && old(has(bstored, "taint/" + "//" + target.Label.Package + ":" + target.Label.Name)) ==>
